@@ -152,7 +152,14 @@ class Must:
             if db is None or db in seen or not isinstance(db, int):
                 continue
             seen.add(db)
-            for b in self.atoms_at(db, seen):
+            alt = phi[2][i]
+            if a[0] in ("true", "false"):
+                spec = bool_atoms(alt, a[0] == "true")
+            elif a[0] in ("ok", "notok"):
+                spec = [(a[0], alt)]
+            else:
+                spec = [("variant", alt, a[2], a[3])]
+            for b in spec + self.atoms_at(db, seen):
                 if b not in out:
                     out.append(b)
         return out
